@@ -51,7 +51,7 @@ void operator delete[](void * p, size_t) noexcept { std::free(p); }
 
 using namespace Vector::BLF;
 
-static int WD_SECONDS = 20;
+static int WD_SECONDS = 8;
 static std::atomic<long> g_progress(0);
 static std::atomic<bool> g_in_case(false);
 static std::string g_tmp;
